@@ -1,6 +1,6 @@
 (* C06: the reader returns every record once, in order, exact bases, for all containers. *)
 From Coq Require Import NArith List Lia String.
-From KT Require Import Gen.Generated Gen.GeneratedFacts Model.Show Model.Reader Proof.Fasta Proof.Fastq Proof.ReaderProof.
+From KT Require Import Gen.Generated Gen.FactsBase Gen.FactSuffixes Model.Show Model.Reader Proof.Fasta Proof.Fastq Proof.ReaderProof.
 Import ListNotations.
 Open Scope N_scope.
 Notation length := List.length.
